@@ -854,3 +854,174 @@ Proof. exact RK4_2d_example_coupled. Qed.
 Print Assumptions C01_RK4_2d_example_coupled.
 
 End T11.
+
+(** T12 — the FLOATING-POINT step.  Model/TrackerFloat.v is an executable model of the tracker's horizontal step over
+    Coq's primitive binary64 floats with the code's own operation order: RKstep (x + frac*u*dtdx with the precomputed
+    quotient dtdx = dt/dx), clip by numba's min/max (first argument kept on ties / NaN), RK4avg ((u1 + 2u2 + 2u3 + u4)/6),
+    the final move x + u*dt/dx (multiply, THEN divide), the accumulation 0 + u; tied to the compiled code bit for bit by
+    Corr/C01F.v on every run, stage positions included.  Proved with Flocq: the model is the IEEE-754 computation; the
+    final position and every stage position are within an explicit rounding bound of the exact Runge-Kutta step with the
+    same stage velocities (u64 = 2^-53: u64|x| + 4 u64|u dt/dx| + eta-terms for the move, u64|x| + 9 u64 M|dt/dx| + ...
+    for RK4); clip is exact (one of its arguments, inside [lo, hi], the identity inside the box: the no-clip case of the
+    rational model carries over); zero velocity leaves the position's value unchanged; the RK4 average of four equal
+    velocities is off by at most ONE ulp (and not exact in general: 0.1 comes back one ulp smaller).  Depends on Coq's
+    primitive floats and their stdlib specification in addition to the real-number axioms. *)
+From Coq Require Import ZArith Reals List.
+From Coq Require Floats.
+From Flocq Require Import Core BinarySingleNaN.
+From Flocq Require IEEE754.PrimFloat IEEE754.Binary IEEE754.Bits.
+From Ladim Require Import Model.TrilinearFloat Proofs.TrilinearFloatProofs Model.TrackerFloat Proofs.TrackerFloatProofs Proofs.C01FSound.
+Import Flocq.IEEE754.PrimFloat.
+Section T12.
+Local Open Scope R_scope.
+Theorem C01_rk4_f_is_IEEE :
+  forall x dt dx lo hi u1 u2 u3 u4 : pfloat,
+  P2 (rk4_f x dt dx lo hi u1 u2 u3 u4) =
+  rk4_B (Prim2B x) (Prim2B dt) (Prim2B dx) (Prim2B lo) (Prim2B hi) (Prim2B u1) (Prim2B u2) 
+    (Prim2B u3) (Prim2B u4).
+Proof. exact rk4_f_is_IEEE. Qed.
+Print Assumptions C01_rk4_f_is_IEEE.
+
+Theorem C01_final_f_error :
+  forall x u dt dx : pfloat,
+  fb x 1000 ->
+  fb u 102 ->
+  fb dt 100 ->
+  dxb dx ->
+  fin (final_f x u dt dx) /\
+  Rabs (FR (final_f x u dt dx) - (FR x + FR u * FR dt / FR dx)) <= move_bound (FR x) (FR u) (FR dt) (FR dx).
+Proof. exact final_f_error. Qed.
+Print Assumptions C01_final_f_error.
+
+Theorem C01_stage_f_error :
+  forall x frac u dt dx lo hi : pfloat,
+  fb x 1000 ->
+  fb frac 0 ->
+  fb u 100 ->
+  fb dt 100 ->
+  dxb dx ->
+  fin lo ->
+  fin hi ->
+  let s := stage_f x frac u (dtdx_f dt dx) lo hi in
+  fin s /\
+  Rabs (FR s - clip_R (FR x + FR frac * FR u * (FR dt / FR dx)) (FR lo) (FR hi)) <=
+  stage_bound (FR x) (FR frac) (FR u) (FR dt) (FR dx) /\
+  (FR lo <= FR hi -> FR lo <= FR s <= FR hi) /\
+  (FR lo <= FR (rkstep_f x frac u (dtdx_f dt dx)) <= FR hi -> s = rkstep_f x frac u (dtdx_f dt dx)).
+Proof. exact stage_f_error. Qed.
+Print Assumptions C01_stage_f_error.
+
+Theorem C01_rk4avg_f_error :
+  forall (u1 u2 u3 u4 : pfloat) (M : R),
+  fb u1 100 ->
+  fb u2 100 ->
+  fb u3 100 ->
+  fb u4 100 ->
+  Rabs (FR u1) <= M ->
+  Rabs (FR u2) <= M ->
+  Rabs (FR u3) <= M ->
+  Rabs (FR u4) <= M ->
+  fin (rk4avg_f u1 u2 u3 u4) /\
+  Rabs (FR (rk4avg_f u1 u2 u3 u4) - rk4avg_R (FR u1) (FR u2) (FR u3) (FR u4)) <= c4 * M + eta.
+Proof. exact rk4avg_f_error. Qed.
+Print Assumptions C01_rk4avg_f_error.
+
+Theorem C01_rk4_final_error :
+  forall (x dt dx u1 u2 u3 u4 : pfloat) (M : R),
+  fb x 1000 ->
+  fb dt 100 ->
+  dxb dx ->
+  fb u1 100 ->
+  fb u2 100 ->
+  fb u3 100 ->
+  fb u4 100 ->
+  Rabs (FR u1) <= M ->
+  Rabs (FR u2) <= M ->
+  Rabs (FR u3) <= M ->
+  Rabs (FR u4) <= M ->
+  let r := final_f x (rk4avg_f u1 u2 u3 u4) dt dx in
+  fin r /\
+  Rabs (FR r - (FR x + rk4avg_R (FR u1) (FR u2) (FR u3) (FR u4) * FR dt / FR dx)) <=
+  rk4_bound (FR x) M (FR dt) (FR dx).
+Proof. exact rk4_final_error. Qed.
+Print Assumptions C01_rk4_final_error.
+
+Theorem C01_clip_f_in_range :
+  forall x lo hi : pfloat,
+  fin x -> fin lo -> fin hi -> FR lo <= FR hi -> fin (clip_f x lo hi) /\ FR lo <= FR (clip_f x lo hi) <= FR hi.
+Proof. exact clip_f_in_range. Qed.
+Print Assumptions C01_clip_f_in_range.
+
+Theorem C01_clip_f_id :
+  forall x lo hi : pfloat, fin x -> fin lo -> fin hi -> FR lo <= FR x <= FR hi -> clip_f x lo hi = x.
+Proof. exact clip_f_id. Qed.
+Print Assumptions C01_clip_f_id.
+
+Theorem C01_final_f_zero_velocity_value :
+  forall x u dt dx : pfloat,
+  is_zero_f u ->
+  fin x -> fin dt -> fin dx -> FR dx <> 0 -> fin (final_f x u dt dx) /\ FR (final_f x u dt dx) = FR x.
+Proof. exact final_f_zero_velocity_value. Qed.
+Print Assumptions C01_final_f_zero_velocity_value.
+
+Theorem C01_rk4avg_f_equal_ulp :
+  forall u : pfloat,
+  fb u 100 ->
+  bpow radix2 (-1022) <= Rabs (FR u) -> Rabs (FR (rk4avg_f u u u u) - FR u) <= ulp radix2 fexp64 (FR u).
+Proof. exact rk4avg_f_equal_ulp. Qed.
+Print Assumptions C01_rk4avg_f_equal_ulp.
+
+Theorem C01_rk4_f_checked :
+  forall x dt dx lo hi u1 u2 u3 u4 : pfloat,
+  step_ok x dt dx lo hi (u1 :: u2 :: u3 :: u4 :: nil) = true ->
+  let r := rk4_f x dt dx lo hi u1 u2 u3 u4 in
+  let stage_ok :=
+    fun (s : pfloat) (f u : R) =>
+    fin s /\
+    Rabs (FR s - clip_R (FR x + f * u * (FR dt / FR dx)) (FR lo) (FR hi)) <=
+    stage_bound (FR x) f u (FR dt) (FR dx) /\ (FR lo <= FR hi -> FR lo <= FR s <= FR hi) in
+  exists x1 x2 x3 : pfloat,
+    fst r = x1 :: x2 :: x3 :: nil /\
+    stage_ok x1 (/ 2) (FR u1) /\
+    stage_ok x2 (/ 2) (FR u2) /\
+    stage_ok x3 1 (FR u3) /\
+    fin (snd r) /\
+    Rabs (FR (snd r) - (FR x + rk4avg_R (FR u1) (FR u2) (FR u3) (FR u4) * FR dt / FR dx)) <=
+    rk4_bound (FR x) (maxabs4 (FR u1) (FR u2) (FR u3) (FR u4)) (FR dt) (FR dx).
+Proof. exact rk4_f_checked. Qed.
+Print Assumptions C01_rk4_f_checked.
+
+Theorem C01_check_case_sound_rk4 :
+  forall xb dtb dxb lob hib u1b u2b u3b u4b p1b p2b p3b fb : Z,
+  C01F.check_case
+    (2%Z :: xb :: dtb :: dxb :: lob :: hib :: u1b :: u2b :: u3b :: u4b :: p1b :: p2b :: p3b :: fb :: nil) =
+  true ->
+  let x := float_of_bits xb in
+  let dt := float_of_bits dtb in
+  let dx := float_of_bits dxb in
+  let lo := float_of_bits lob in
+  let hi := float_of_bits hib in
+  let u1 := float_of_bits u1b in
+  let u2 := float_of_bits u2b in
+  let u3 := float_of_bits u3b in
+  let u4 := float_of_bits u4b in
+  let a1 := float_of_bits p1b in
+  let a2 := float_of_bits p2b in
+  let a3 := float_of_bits p3b in
+  let observed := float_of_bits fb in
+  let stage_ok :=
+    fun (s : pfloat) (f u : R) =>
+    fin s /\
+    Rabs (FR s - clip_R (FR x + f * u * (FR dt / FR dx)) (FR lo) (FR hi)) <=
+    stage_bound (FR x) f u (FR dt) (FR dx) /\ (FR lo <= FR hi -> FR lo <= FR s <= FR hi) in
+  (a1 :: a2 :: a3 :: nil, observed) = rk4_f x dt dx lo hi u1 u2 u3 u4 /\
+  stage_ok a1 (/ 2) (FR u1) /\
+  stage_ok a2 (/ 2) (FR u2) /\
+  stage_ok a3 1 (FR u3) /\
+  fin observed /\
+  Rabs (FR observed - (FR x + rk4avg_R (FR u1) (FR u2) (FR u3) (FR u4) * FR dt / FR dx)) <=
+  rk4_bound (FR x) (maxabs4 (FR u1) (FR u2) (FR u3) (FR u4)) (FR dt) (FR dx).
+Proof. exact check_case_sound_rk4. Qed.
+Print Assumptions C01_check_case_sound_rk4.
+
+End T12.
